@@ -7,7 +7,7 @@ from core import nats, natlists, exc_kind, safe_check
 import dbutil
 
 PROPS = ('GambitV.Props.C13', 'GambitV.C13')
-TIE = [('GambitV.Tie.PyCalcFiles', 'GambitV.Tie.Py')]
+TIE = [('GambitV.Tie.PyCalcFiles', 'GambitV.Tie.Py'), ('GambitV.Tie.PyIoFlow', 'GambitV.Tie.Py')]
 RULE = ('(list of FASTA files, some unreadable/unparsable, completion order sigma). A harness-owned executor completes the submitted futures one by '
         'one in the chosen order, stepped by a harness progress meter (both are public parameters of calc_file_signatures): all permutations of '
         'n <= 4 (quick) / 6 (thorough) files, with a failing file at every position; plus sequential mode and real thread / process pools with '
